@@ -113,6 +113,75 @@ Definition route (table : list (N * N)) (island : N) : option N :=
                            if (lo <=? island) && (island <=? hi) then Some i else acc)
             (index_from 0 table) None.
 
+(* ---- name objects: builders and per-object caches ---------------------------------------
+   A Name is built step by step (New().Sanctuary(s).Realm(r).Swamp(w)); every builder returns
+   a NEW object that copies the parts and the path and starts with empty caches.  Prefix
+   objects are routinely shared (one sanctuary/realm object extended into many swamps) and may
+   themselves be queried.  The SDK and the server object of one name are kept side by side. *)
+Record nobj := {
+  o_s : str; o_r : str; o_w : str;          (* SanctuaryID, RealmName, SwampName *)
+  o_path : str;                             (* Path *)
+  o_isl_sdk : N;                            (* SDK IslandNumber, 0 = not computed *)
+  o_isl_srv : N;                            (* server FolderNumber, 0 = not computed *)
+  o_hp : option str                         (* server HashPath, None = "" *)
+}.
+
+Definition obj_triple (o : nobj) : triple := {| sanct := o_s o; realm := o_r o; swamp := o_w o |}.
+
+Definition obj_sanct (s : str) : nobj :=
+  {| o_s := s; o_r := []; o_w := []; o_path := s; o_isl_sdk := 0; o_isl_srv := 0; o_hp := None |}.
+Definition obj_realm (o : nobj) (r : str) : nobj :=
+  {| o_s := o_s o; o_r := r; o_w := []; o_path := o_path o ++ SEP :: r;
+     o_isl_sdk := 0; o_isl_srv := 0; o_hp := None |}.
+Definition obj_swamp (o : nobj) (w : str) : nobj :=
+  {| o_s := o_s o; o_r := o_r o; o_w := w; o_path := o_path o ++ SEP :: w;
+     o_isl_sdk := 0; o_isl_srv := 0; o_hp := None |}.
+Definition obj_load (p : str) : option nobj :=
+  match load p with
+  | Some t => Some {| o_s := sanct t; o_r := realm t; o_w := swamp t; o_path := path_of t;
+                      o_isl_sdk := 0; o_isl_srv := 0; o_hp := None |}
+  | None => None
+  end.
+
+(* queries: (result, object afterwards) *)
+Definition obj_island_sdk (o : nobj) (n : N) : N * nobj :=
+  let '(v, c) := cached_island island_sdk (o_isl_sdk o) (obj_triple o) n in
+  (v, {| o_s := o_s o; o_r := o_r o; o_w := o_w o; o_path := o_path o;
+         o_isl_sdk := c; o_isl_srv := o_isl_srv o; o_hp := o_hp o |}).
+Definition obj_island_srv (o : nobj) (n : N) : N * nobj :=
+  let '(v, c) := cached_island island_srv (o_isl_srv o) (obj_triple o) n in
+  (v, {| o_s := o_s o; o_r := o_r o; o_w := o_w o; o_path := o_path o;
+         o_isl_sdk := o_isl_sdk o; o_isl_srv := c; o_hp := o_hp o |}).
+
+(* the location of an object is computed from its Path *)
+Definition locate_path (clamp : bool) (p : str) (island : N) (depth : nat) (maxf : N) : option location :=
+  match hashed_dir clamp p depth maxf with
+  | None => None
+  | Some ds => Some {| l_island := island; l_dirs := ds; l_folder := xxh64 p |}
+  end.
+
+Definition pure_path (root p : str) (island : N) (depth : nat) (maxf : N) : option str :=
+  option_map (render root) (locate_path true p island depth maxf).
+
+Definition obj_path (root : str) (o : nobj) (island : N) (depth : nat) (maxf : N) : option str * nobj :=
+  match o_hp o with
+  | Some h => (Some h, o)
+  | None =>
+    let r := pure_path root (o_path o) island depth maxf in
+    (r, {| o_s := o_s o; o_r := o_r o; o_w := o_w o; o_path := o_path o;
+           o_isl_sdk := o_isl_sdk o; o_isl_srv := o_isl_srv o; o_hp := r |})
+  end.
+
+(* a program over a growing store of objects; queries carry what the implementation answered *)
+Inductive nop :=
+| NSanct (s : str)
+| NRealm (i : nat) (r : str)
+| NSwamp (i : nat) (w : str)
+| NLoad (p : str)
+| NIsland (i : nat) (n : N) (sdk : N) (srv : option N)
+| NPath (i : nat) (island : N) (depth : nat) (maxf : N) (obs : option str)
+| NGet (i : nat) (sdk_get srv_get : str).                  (* Get() of both objects *)
+
 (* ---- case checker ----------------------------------------------------------------------- *)
 Definition str_eqb : str -> str -> bool := list_eqb N.eqb.
 
@@ -129,13 +198,16 @@ Inductive case :=
         (* one object: GetIslandID(n1) then GetIslandID(n2); likewise GetFolderNumber *)
 | CLoad (p : str) (srv_loaded sdk_loaded : option (triple * str))  (* Load(p): parts and Get(); None = panic *)
 | CAlias (t1 t2 : triple) (island : N) (depth : nat) (maxf : N) (path1 path2 : option str)
-| CRoute (t : triple) (n : N) (table : list (N * N)) (host : option N).
+| CRoute (t : triple) (n : N) (table : list (N * N)) (host : option N)
+| CProg (ops : list nop).
 
 (* codes: 1 model <> implementation    2 island outside 1..N    3 SDK and server islands differ
           4 location computation panics    5 reused name object ignores a changed N
           6 Load panics (fewer than three parts)    7 two different triples, one location
           8 two fresh objects disagree (not a function of the name)
-          9 Gallina XXH64 <> Go library *)
+          9 Gallina XXH64 <> Go library
+          10 the answer of a name object is not the pure function of its own parts / path
+             (it depends on how the object was built or on what was asked of other objects) *)
 Definition code_if (b : bool) (c : N) : list N := if b then [] else [c].
 
 Definition opt_str_eqb := option_eqb str_eqb.
@@ -143,6 +215,65 @@ Definition ROOT : str := [47; 114].    (* "/r" *)
 
 Definition model_path (t : triple) (island : N) (depth : nat) (maxf : N) : option str :=
   option_map (render ROOT) (locate true t island depth maxf).
+
+Definition set_nth_obj (i : nat) (o : nobj) (st : list nobj) : list nobj :=
+  firstn i st ++ o :: skipn (S i) st.
+
+(* one query against the model object [o]: [pure] is the function of the object's own parts,
+   [model] what the faithful object (with its cache) answers.  A stale cache hit after a
+   changed N is the known class 5; any other deviation from [pure] is class 10. *)
+Definition verdict_query {A} (eqb : A -> A -> bool) (obs pure model : A) : list N :=
+  code_if (eqb obs model) 1 ++
+  (if eqb obs pure then [] else if eqb model pure then [10] else if eqb obs model then [5] else [10]).
+
+Fixpoint chk_prog (ops : list nop) (st : list nobj) : list N :=
+  match ops with
+  | [] => []
+  | op :: rest =>
+    match op with
+    | NSanct s => chk_prog rest (st ++ [obj_sanct s])
+    | NRealm i r => match nth_error st i with
+                    | Some o => chk_prog rest (st ++ [obj_realm o r])
+                    | None => [1]
+                    end
+    | NSwamp i w => match nth_error st i with
+                    | Some o => chk_prog rest (st ++ [obj_swamp o w])
+                    | None => [1]
+                    end
+    | NLoad p => match obj_load p with
+                 | Some o => chk_prog rest (st ++ [o])
+                 | None => [1]
+                 end
+    | NIsland i n sdk srv =>
+      match nth_error st i with
+      | None => [1]
+      | Some o =>
+        let '(m1, o1) := obj_island_sdk o n in
+        let '(m2, o2) := obj_island_srv o1 n in
+        verdict_query N.eqb sdk (island_sdk (obj_triple o) n) m1 ++
+        (if o_isl_sdk o =? 0 then code_if ((1 <=? sdk) && (sdk <=? n)) 2 else []) ++
+        match srv with
+        | Some v => verdict_query N.eqb v (island_srv (obj_triple o) n) m2 ++
+                    chk_prog rest (set_nth_obj i o2 st)
+        | None => chk_prog rest (set_nth_obj i o1 st)
+        end
+      end
+    | NPath i island depth maxf obs =>
+      match nth_error st i with
+      | None => [1]
+      | Some o =>
+        let '(m, o') := obj_path ROOT o island depth maxf in
+        (match obs with None => [4] | Some _ => [] end) ++
+        verdict_query opt_str_eqb obs (pure_path ROOT (o_path o) island depth maxf) m ++
+        chk_prog rest (set_nth_obj i o' st)
+      end
+    | NGet i g1 g2 =>
+      match nth_error st i with
+      | None => [1]
+      | Some o => code_if (str_eqb g1 (o_path o) && str_eqb g2 (o_path o)) 1 ++ chk_prog rest st
+      end
+    end
+  end.
 
 Definition chk (c : case) : list N :=
   match c with
@@ -177,6 +308,7 @@ Definition chk (c : case) : list N :=
     code_if (triple_eqb t1 t2 || negb (opt_str_eqb path1 path2)) 7
   | CRoute t n table host =>
     code_if (option_eqb N.eqb host (route table (island_sdk t n))) 1
+  | CProg ops => chk_prog ops []
   end.
 
 Fixpoint dedup (l : list N) : list N :=
